@@ -463,13 +463,16 @@ def check_grids(ctx, n_cases, corpus):
 # (D,E,F) descriptors on ensembles
 # --------------------------------------------------------------------------------------
 def gen_scene(rng, quick):
-    n_atoms = rng.range(1, 5)
-    n_conf = rng.range(1, 3 if quick else 4)
+    # small geometries and geometries well beyond one KD-tree leaf (scipy brute-forces up to 10 points per leaf)
+    size = rng.weighted([("small", 3), ("medium", 2), ("large", 2)])
+    n_atoms = rng.range(1, 5) if size == "small" else rng.range(11, 30) if size == "medium" else rng.range(31, 60)
+    n_conf = rng.range(1, 3 if quick else 4) if size == "small" else rng.range(1, 2)
     style = rng.weighted([("random", 4), ("quarter", 1)])
     elements = [rng.choice(ELEMENTS) for _ in range(n_atoms)]
+    extent = {"small": 2.5, "medium": 3.5, "large": 4.5}[size]
 
     def coord():
-        return rng.range(-10, 10) / 4.0 if style == "quarter" else f32((rng.uniform() * 2 - 1) * 2.5)
+        return rng.range(-int(extent * 4), int(extent * 4)) / 4.0 if style == "quarter" else f32((rng.uniform() * 2 - 1) * extent)
 
     coords = [[[coord() for _ in range(3)] for _ in range(n_atoms)] for _ in range(n_conf)]
     charges = [[f32((rng.uniform() * 2 - 1)) for _ in range(n_atoms)] for _ in range(n_conf)]
@@ -481,7 +484,7 @@ def gen_scene(rng, quick):
     else:
         npts = rng.range(1, 40 if quick else 80)
         conv = f32 if gstyle == "random32" else float
-        grid = [[conv((rng.uniform() * 2 - 1) * 4.0) for _ in range(3)] for _ in range(npts)]
+        grid = [[conv((rng.uniform() * 2 - 1) * (extent + 1.5)) for _ in range(3)] for _ in range(npts)]
         gspec = None
     return {"section": "scene", "elements": elements, "coords": coords, "charges": charges, "weights": weights,
             "grid_style": gstyle, "grid": grid, "grid_spec": gspec, "style": style,
@@ -502,8 +505,9 @@ def build_scene(s):
     if s["grid"] is None:
         lo, hi = coords.reshape(-1, 3).min(0), coords.reshape(-1, 3).max(0)
         grid = gb.rectangular_grid(lo, hi, padding=s["grid_spec"]["pad"], spacing=s["grid_spec"]["s"])
-        if grid.shape[0] > 400:
-            grid = grid[:: grid.shape[0] // 400 + 1]
+        cap = 400 if coords.shape[1] <= 10 else 160
+        if grid.shape[0] > cap:
+            grid = grid[:: grid.shape[0] // cap + 1]
     else:
         grid = np.array(s["grid"], dtype=np.float32 if s["grid_style"] == "random32" else np.float64)
     radii = [a.vdw_radius for a in ens.atoms]
@@ -533,7 +537,7 @@ def oracle_nearest(ctx, idx, atoms, grid, maxd, tag, single):
                 ctx.violation("C19:nearest-not-closest", f"grid point {j}: atom {k} (d={math.sqrt(d2[k, j]):.6g}) reported, closest is at {math.sqrt(dmin[j]):.6g}", {**tag, "point": j})
                 return
         elif dmin[j] < m2 * (1 - t):
-            ctx.violation(pre or "C19:nearest-missed-atom-within-cutoff", f"grid point {j}: -1 reported, an atom is at distance {math.sqrt(dmin[j]):.6g} <= max_dist={maxd}", {**tag, "point": j})
+            ctx.violation("C19:nearest-missed-atom-within-cutoff", f"grid point {j}: -1 reported, an atom is at distance {math.sqrt(dmin[j]):.6g} <= max_dist={maxd}", {**tag, "point": j})
             return
 
 
@@ -554,7 +558,7 @@ def check_scenes(ctx, n_cases, corpus):
         maxd, eps = s["max_dist"], s["eps"]
         tag = {k: v for k, v in s.items()}
         ctx.case(json.dumps(s, sort_keys=True), nontrivial=grid.shape[0] > 0 and n_atoms > 1)
-        ctx.count(f"scene-atoms={n_atoms}")
+        ctx.count(f"scene-atoms={n_atoms}" if n_atoms <= 5 else "scene-atoms=11..30" if n_atoms <= 30 else "scene-atoms=31..60")
         ctx.count(f"scene-conformers={n_conf}")
         ctx.count(f"scene-grid:{s['grid_style']}")
         gtok = pts_tok(grid, rat)
@@ -731,7 +735,7 @@ def run(ctx):
                 "int/quarter/unit/close/big/tiny, coincident pairs); non-trivial = all dimensions > 0. Pre-built extension: "
                 "strided/transposed/reversed/column-strided/mixed-dtype arguments; non-trivial = a non-contiguous argument. "
                 "Grids: dyadic boxes (exact comparison) and general float boxes (tolerance; width/spacing within 1e-4 of an "
-                "integer skipped); non-trivial = more than one point. Scenes: 1..5 atoms x 1..4 conformers, rectangular or "
+                "integer skipped); non-trivial = more than one point. Scenes: 1..5, 11..30 or 31..60 atoms (beyond one KD-tree leaf of 10 points) x 1..4 conformers, rectangular or "
                 "random float32/float64 grids, max_dist in {0.5..3.3}, eps in {0..1}; each scene exercises nearest (ensemble and "
                 "single geometry), prune (both), aso and aeif (weighted and not); non-trivial = >1 atom and a non-empty grid. "
                 "Distinct by full canonical input.")
